@@ -1968,6 +1968,95 @@ def _param_names(fn: ast.AST) -> Set[str]:
     return out
 
 
+def _as_text(t: ast.AST) -> ast.AST:
+    """The term *t* after text conversion (`%s`, `{}`, `{!s}`): a constant becomes its text, everything else is left
+    as it is (a str - such as the result of json.dumps - is its own text; any other term is not accepted as part of a
+    JSON line anyway)."""
+    if isinstance(t, ast.Constant) and not isinstance(t.value, (str, bytes)) and t.value is not Ellipsis:
+        return ast.copy_location(ast.Constant(value=str(t.value)), t)
+    return t
+
+
+def _format_layout(e: ast.AST) -> Optional[List[object]]:
+    """The text built by a formatting expression with a constant layout, as a sequence of constant pieces (str) and
+    argument expressions whose text is inserted: ``"<fmt with %s / %%>" % arg|(args..)``, ``"<fmt with {} / {0} / {name}>".format(..)``
+    and ``"<sep>".join([a, b, ..])`` over a list / tuple display.  None: not such an expression (or a directive other
+    than plain text insertion, which is not modelled)."""
+    if isinstance(e, ast.BinOp) and isinstance(e.op, ast.Mod) and isinstance(e.left, ast.Constant) and isinstance(e.left.value, str):
+        fmt = e.left.value
+        if isinstance(e.right, ast.Tuple):
+            if any(isinstance(x, ast.Starred) for x in e.right.elts):
+                return None
+            args = list(e.right.elts)
+        elif isinstance(e.right, (ast.Dict, ast.DictComp)):
+            return None
+        else:
+            args = [e.right]
+        out: List[object] = []
+        i, used, buf = 0, 0, ""
+        while i < len(fmt):
+            ch = fmt[i]
+            if ch != "%":
+                buf += ch
+                i += 1
+                continue
+            nxt = fmt[i + 1] if i + 1 < len(fmt) else ""
+            if nxt == "%":
+                buf += "%"
+            elif nxt == "s" and used < len(args):
+                out.append(buf)
+                buf = ""
+                out.append(args[used])
+                used += 1
+            else:
+                return None
+            i += 2
+        out.append(buf)
+        return out if used == len(args) else None
+    if isinstance(e, ast.Call) and isinstance(e.func, ast.Attribute) and isinstance(e.func.value, ast.Constant) and isinstance(e.func.value.value, str):
+        text = e.func.value.value
+        if e.func.attr == "format":
+            if any(isinstance(x, ast.Starred) for x in e.args) or any(k.arg is None for k in e.keywords):
+                return None
+            import string
+            try:
+                fields = list(string.Formatter().parse(text))
+            except ValueError:
+                return None
+            named = {k.arg: k.value for k in e.keywords}
+            out = []
+            auto = 0
+            for lit, field, spec, conv in fields:
+                out.append(lit or "")
+                if field is None:
+                    continue
+                if spec or conv not in (None, "s"):
+                    return None
+                if field == "":
+                    idx, auto = auto, auto + 1
+                    if idx >= len(e.args):
+                        return None
+                    out.append(e.args[idx])
+                elif field.isdigit():
+                    if int(field) >= len(e.args):
+                        return None
+                    out.append(e.args[int(field)])
+                elif field in named:
+                    out.append(named[field])
+                else:
+                    return None
+            return out
+        if e.func.attr == "join" and len(e.args) == 1 and not e.keywords and isinstance(e.args[0], (ast.List, ast.Tuple)) \
+                and not any(isinstance(x, ast.Starred) for x in e.args[0].elts):
+            out = []
+            for k, el in enumerate(e.args[0].elts):
+                if k:
+                    out.append(text)
+                out.append(el)
+            return out
+    return None
+
+
 def _text_alternatives(repo: Repo, mod, fn: ast.AST, e: ast.AST, depth: int = 0) -> List[List[ast.AST]]:
     """The text *e* evaluates to, as alternatives of concatenated terms: ``+`` chains and f-strings are
     flattened, locals are replaced by the values assigned to them (every assignment is an alternative),
@@ -1981,10 +2070,23 @@ def _text_alternatives(repo: Repo, mod, fn: ast.AST, e: ast.AST, depth: int = 0)
     if isinstance(e, ast.JoinedStr):
         alts: List[List[ast.AST]] = [[]]
         for v in e.values:
-            if isinstance(v, ast.FormattedValue) and v.conversion == -1 and v.format_spec is None:
-                sub = _text_alternatives(repo, mod, fn, v.value, depth + 1)
+            if isinstance(v, ast.FormattedValue) and v.conversion in (-1, 115) and v.format_spec is None:
+                # {x} and {x!s}: the text of x (identity for a str)
+                sub = [[_as_text(t) for t in alt] for alt in _text_alternatives(repo, mod, fn, v.value, depth + 1)]
             else:
                 sub = [[v]]
+            alts = [a + b for a in alts for b in sub][:16]
+        return alts
+    layout = _format_layout(e)
+    if layout is not None:
+        # "%s\n" % x, "{}\n".format(x), "".join([x, "\n"]): the same concatenation as x + "\n" - constant pieces and
+        # the text of the arguments (text-converted: identity for a str such as the result of json.dumps)
+        alts = [[]]
+        for piece in layout:
+            if isinstance(piece, str):
+                sub = [[ast.copy_location(ast.Constant(value=piece), e)]] if piece else [[]]
+            else:
+                sub = [[_as_text(t) for t in alt] for alt in _text_alternatives(repo, mod, fn, piece, depth + 1)]
             alts = [a + b for a in alts for b in sub][:16]
         return alts
     if isinstance(e, ast.Name) and e.id not in _param_names(fn):
